@@ -320,12 +320,17 @@ func (s *BooleanSearcher) advanceIfTrailing(ctx *search.Context, number uint64) 
 	}
 
 	if s.shouldSearcher != nil {
-		if s.currShould != nil {
-			ctx.DocumentMatchPool.Put(s.currShould)
-		}
-		s.currShould, err = s.shouldSearcher.Advance(ctx, number)
-		if err != nil {
-			return err
+		// As for the mustNotSearcher below, the cursor must not move when
+		// it is already ahead of or at the requested ID, otherwise the
+		// pending should match is lost.
+		if s.currShould == nil || s.currShould.Number < number {
+			if s.currShould != nil {
+				ctx.DocumentMatchPool.Put(s.currShould)
+			}
+			s.currShould, err = s.shouldSearcher.Advance(ctx, number)
+			if err != nil {
+				return err
+			}
 		}
 	}
 
